@@ -1675,7 +1675,10 @@ class C14(e2.ProgenProp):
             "(broadcasting binary stages, repeated leaves, optional explicit aliases): apply(get_function_composition(v), get_function_operands(v)), the extracted operands by "
             "address, the id of every sub-view and the node / edge sets of get_compute_graph(v). Oracle: direct view == NumPy; every functor form == direct view bit for bit; "
             "extracted operands == leaves by address in left-to-right occurrence order; graph == AST: one node per distinct operation, one node per operand occurrence (one per "
-            "leaf when aliased), ids pairwise distinct, edges exactly {input -> operation}; composition arity == number of operands consumed (chains without combinators). "
+            "leaf when aliased), ids pairwise distinct, edges exactly {input -> operation}; composition arity == number of operands consumed (chains without combinators); "
+            "a functor call must return the evaluated array, not a pack or a still partially applied functor. A block whose DIRECT view crashes or disagrees with NumPy is a "
+            "view-level matter (other properties): counted and listed in info, not judged. Compile-rejected blocks / parts are counted (harness error above 50 %). Known-finding "
+            "classes are excluded by construction (F_HASH by the printed ids), NMV_C14_EXCLUDE=id,... simulates a listing. "
             "Every printed record judged = one evaluation; non-trivial = non-canonical split, chain length >= 2, depth >= 2 or repeated leaf; distinct = (case, record).")
     assumptions = ["NumPy anchors the values (a defect common to functor and view is covered by the view properties)",
                    "a functor form the compiler rejects is outside the supported configuration space (counted; harness error above 50 %)",
